@@ -64,3 +64,49 @@ func VerifC09_total() {
 	vfRenderAll(t, nd, true)
 	vfAssert(true, "no-panic")
 }
+
+// VerifC09_kept: renderer objects that are kept, used, and used again after the table has grown.
+func VerifC09_kept() {
+	t := tabular.New()
+	switch vfChoice("shape", 4) {
+	case 1:
+		t.AddHeaders("h")
+	case 2:
+		t.AddHeaders("h", "i")
+		t.AddRowItems("a")
+	case 3:
+		t.AddRowItems("a", "b")
+		t.AddSeparator()
+	}
+	kept := []RenderTable{Wrap(t, "texttable"), Wrap(t, "markdown"), Wrap(t, "csv"), Wrap(t, "json"), Wrap(t, "html"), Wrap(t, "none")}
+	check := func() {
+		for _, k := range kept {
+			out, err := k.Render()
+			if err != nil {
+				vfAssert(out == "", "kept-error-means-no-text")
+			}
+		}
+	}
+	if vfChoice("kept-first", 2) == 1 {
+		check()
+	}
+	switch vfChoice("grow", 4) {
+	case 1:
+		items := make([]interface{}, t.NColumns()+1)
+		for i := range items {
+			items[i] = "g"
+		}
+		t.AddRowItems(items...)
+	case 2:
+		r := t.AppendNewRow()
+		n := t.NColumns() + 1
+		for i := 0; i < n; i++ {
+			r.Add(tabular.NewCell("g"))
+		}
+	case 3:
+		t.AddHeaders("h", "i", "j")
+	}
+	check()
+	check()
+	vfAssert(true, "kept-no-panic")
+}
